@@ -382,12 +382,6 @@ func CargoValid(r Range) bool {
 		if len(p.Pre) > 0 && (len(p.Nums) != 3 || seenX) {
 			return false
 		}
-		if p.Build != "" && (len(p.Nums) != 3 || seenX) {
-			return false
-		}
-		if p.V {
-			return false
-		}
 	}
 	return true
 }
